@@ -109,7 +109,11 @@ func ambiguous(a, b Kind) bool {
 	return a&kE != 0 && b&num != 0 || b&kE != 0 && a&num != 0
 }
 
-func arithable(k Kind) bool { return k != 0 && k&^(kE|kN) == 0 }
+// arithmetic only on columns that hold integers and nothing else ("" * 2 is an error)
+func arithable(k Kind) bool { return k == kN }
+
+// total/average skip "" and strings; generated on number-or-empty columns
+func summable(k Kind) bool { return k != 0 && k&^(kE|kN) == 0 }
 
 // ---------------------------------------------------------------- database
 
@@ -784,7 +788,7 @@ func (g *Gen) summarize(src *Q) *Q {
 				on = rest[g.rnd.Intn(len(rest))]
 				k = src.kinds[on]
 				if op == "total" || op == "average" {
-					if !arithable(src.kinds[on]) {
+					if !summable(src.kinds[on]) {
 						op = []string{"min", "max"}[g.rnd.Intn(2)]
 					} else if op == "total" {
 						k = kN
